@@ -1,5 +1,5 @@
 """C04 - Embedding a gate into a register acts on exactly its wires."""
-import itertools, sys, os
+import itertools, sys, os, json
 import numpy as np
 from vlib import coqterm as ct
 
@@ -82,9 +82,43 @@ def ref_mode():
     return field_mode(dict(FMODE, ref=True))
 
 
+_REF_MEMO = {}
+
+
 def ref_gate_matrix(spec, sizes):
+    """as_matrix() of a gate built AFRESH from the value `spec` (never the object under test); memoised per value, since
+    the same gate is embedded under many field lists"""
     with ref_mode():
-        return np.asarray(build_gate(spec, mk_fields(sizes)).as_matrix())
+        key = json.dumps([spec, sizes, FMODE], sort_keys=True, default=str)
+        if key not in _REF_MEMO:
+            if len(_REF_MEMO) > 512:
+                _REF_MEMO.clear()
+            m = np.array(build_gate(spec, mk_fields(sizes)).as_matrix())
+            m.setflags(write=False)
+            _REF_MEMO[key] = m
+        return _REF_MEMO[key]
+
+
+def spec_tol(spec):
+    """0 = compare exactly.  Gates whose matrix comes out of scipy's expm / sqrtm (time evolution, block encoding) are
+    compared up to 1e-12 (entries are O(1); a misplaced wire changes entries by O(0.01..1))"""
+    k = spec[0]
+    if k in ("TEvo", "BEnc"):
+        return 1e-12
+    if k == "C":
+        return spec_tol(spec[3])
+    if k == "Mux":
+        return max(spec_tol(t) for t in spec[2])
+    return 0.0
+
+
+def same(a, b, tol=0.0):
+    a, b = np.asarray(a, dtype=complex), np.asarray(b, dtype=complex)
+    if a.shape != b.shape:
+        return False
+    if tol == 0.0:
+        return bool(np.array_equal(a, b))
+    return bool(a.size == 0 or np.max(np.abs(a - b)) <= tol)
 
 
 def make_lattice(n, flavor):
@@ -202,6 +236,50 @@ def relayout(a, name):
     return out
 
 
+HKINDS = ("IsingZZ", "IsingXX", "Heis", "PauliOp")
+WHOLE_FIELD = ("TEvo", "BEnc", "CTEvo", "MuxTEvo", "CBEnc")      # generator kinds: gates on ALL sites of a field
+KIND_HEAD = {"Prep1": "Prep", "Prep2": "Prep", "Prep3": "Prep", "Prep2T": "Prep", "Gen2": "Gen", "Gen3": "Gen", "Gen4": "Gen",
+             "GenD2": "Gen", "GenD3": "Gen", "C1": "C", "C2": "C", "CC": "C", "C3": "C", "CGen2": "C", "CH": "C", "CTEvo": "C",
+             "CBEnc": "C", "MuxTEvo": "Mux"}
+BE_METHODS = ("Wx", "Wxi", "R")
+
+
+def build_hamiltonian(hs, F):
+    """hs = [kind, field index, number of sites of that field, parameters] (JSON-able).  Every Hamiltonian of /repo acts
+    on ALL sites of ONE field; spectral norm < 1 by construction of the parameters (rand_hspec)"""
+    import qib
+    op = qib.operator
+    k, fi, n, par = hs
+    f = F[fi]
+    assert f.lattice.nsites == n, "Hamiltonian spec names a field of %d sites, the field has %d" % (n, f.lattice.nsites)
+    if k in ("IsingZZ", "IsingXX"):
+        return op.IsingHamiltonian(f, par[0], par[1], par[2],
+                                   op.IsingConvention.ISING_ZZ if k == "IsingZZ" else op.IsingConvention.ISING_XX)
+    if k == "Heis":
+        return op.HeisenbergHamiltonian(f, seq(par[0]), seq(par[1]))
+    if k == "PauliOp":
+        return op.PauliOperator([op.WeightedPauliString(op.PauliString.from_string(s_), w) for s_, w in par]).set_field(f)
+    raise ValueError("hamiltonian spec " + repr(hs))
+
+
+def rand_hspec(rng, kind, fi, n):
+    """a Hamiltonian on the n sites of field fi, not invariant under site permutations, norm < 1 (<= 27/32)"""
+    q = lambda den: rng.choice([-3, -2, -1, 1, 2, 3]) / float(den)
+    if kind in ("IsingZZ", "IsingXX"):
+        den = 32 if n <= 3 else 64
+        return [kind, fi, n, [q(den), q(den), q(den)]]
+    if kind == "Heis":
+        den = 64 if n <= 3 else 128
+        J = [q(den), q(den), q(den)]
+        h = [q(den), q(den), q(den)]
+        return [kind, fi, n, [J, h]]
+    if kind == "PauliOp":
+        strs = ["".join(t) for t in itertools.product("IXYZ", repeat=n) if set(t) != {"I"}]
+        pick = rng.sample(strs, min(3, len(strs)))
+        return [kind, fi, n, [[s_, q(16)] for s_ in pick]]
+    raise ValueError(kind)
+
+
 def build_gate(spec, F):
     """spec: JSON-able nested list; particles are (field index, lattice index) pairs"""
     import qib.operator.gates as qib
@@ -218,7 +296,15 @@ def build_gate(spec, F):
     if k == "Rot":
         return qib.RotationGate(numvec(spec[1]), qubit(F, spec[2]))
     if k == "Prep":
+        # optional 4th entry "T": the transposed (inverse) preparation gate
+        if len(spec) > 3 and spec[3] == "T":
+            return qib.PrepareGate(numvec(spec[1]), len(spec[2]), True).on(seq([qubit(F, p) for p in spec[2]]))
         return qib.PrepareGate(numvec(spec[1]), len(spec[2])).on(seq([qubit(F, p) for p in spec[2]]))
+    if k == "TEvo":      # exp(-i t H), on every site of the Hamiltonian's field
+        return qib.TimeEvolutionGate(build_hamiltonian(spec[1], F), num(spec[2]))
+    if k == "BEnc":      # block encoding of H: auxiliary qubit (any particle), then every site of the Hamiltonian's field
+        return qib.BlockEncodingGate(build_hamiltonian(spec[1], F), getattr(qib.BlockEncodingMethod, spec[2])) \
+            .set_auxiliary_qubits(seq([qubit(F, spec[3])]))
     if k == "iSwap":
         return qib.ISwapGate(qubit(F, spec[1]), qubit(F, spec[2]))
     if k == "Phase":
@@ -246,6 +332,10 @@ def spec_particles(spec):
         return [tuple(spec[2])]
     if k == "Prep":
         return [tuple(p) for p in spec[2]]
+    if k == "TEvo":
+        return [(spec[1][1], i) for i in range(spec[1][2])]
+    if k == "BEnc":
+        return [tuple(spec[3])] + [(spec[1][1], i) for i in range(spec[1][2])]
     if k in ("Rxx", "Ryy", "Rzz"):
         return [tuple(spec[3]), tuple(spec[2])]      # the code lists [q2, q1]
     if k == "iSwap":
@@ -323,6 +413,21 @@ def apply_mutation(obj, mut, F):
         obj.tgate = build_gate(mut[1], F)
     elif k == "tgates_k":
         obj.tgates[mut[1]] = build_gate(mut[2], F)
+    elif k == "set_aux":
+        obj.set_auxiliary_qubits([qubit(F, mut[1])])
+    elif k == "set_aux_args":
+        obj.set_auxiliary_qubits(qubit(F, mut[1]))
+    elif k == "aux_inplace":
+        obj.auxiliary_qubits[0] = qubit(F, mut[1])
+    elif k == "method":
+        import qib.operator.gates as G_
+        obj.method = getattr(G_.BlockEncodingMethod, mut[1])
+    elif k == "t":
+        obj.t = num(mut[1])
+    elif k == "h":
+        obj.h = build_hamiltonian(mut[1], F)
+    elif k == "h_field_strength":       # in-place change of the Hamiltonian object the gate holds
+        obj.h.h = mut[1]
     else:
         raise ValueError(mut)
 
@@ -384,6 +489,15 @@ def mutate_spec(spec, path, mut):
         s[3] = jcopy(mut[1])
     elif k == "tgates_k":
         s[2][mut[1]] = jcopy(mut[2])
+    elif k in ("set_aux", "set_aux_args", "aux_inplace"):
+        s[3] = jcopy(mut[1])
+    elif k in ("method", "t"):
+        s[2] = mut[1]
+    elif k == "h":
+        s[1] = jcopy(mut[1])
+    elif k == "h_field_strength":
+        assert s[1][0] in ("IsingZZ", "IsingXX")
+        s[1][3][1] = mut[1]
     else:
         raise ValueError(mut)
     return spec
@@ -461,13 +575,15 @@ def coo_sorted(out):
 DENSE_MAX = 9        # registers with more wires are compared entry list against entry list
 
 
-def embeds_exactly(out, nw, ws, G):
-    """the sparse matrix `out` is exactly G on wires ws (first = most significant) (x) identity on the nw-wire register"""
+def embeds_exactly(out, nw, ws, G, tol=0.0):
+    """the sparse matrix `out` is exactly (tol = 0; else entrywise up to tol) G on wires ws (first = most significant)
+    (x) identity on the nw-wire register"""
     if tuple(out.shape) != (2 ** nw, 2 ** nw):
         return False
     if nw <= DENSE_MAX:
-        return bool(np.array_equal(dense(out), ref_embed(nw, ws, G)))
-    return all(x.shape == y.shape and np.array_equal(x, y) for x, y in zip(coo_sorted(out), ref_embed_coo(nw, ws, G)))
+        return same(dense(out), ref_embed(nw, ws, G), tol)
+    got, exp = coo_sorted(out), ref_embed_coo(nw, ws, G)
+    return all(x.shape == y.shape and np.array_equal(x, y) for x, y in zip(got[:2], exp[:2])) and same(got[2], exp[2], tol)
 
 
 def ref_permute(u, perm):
@@ -624,12 +740,13 @@ def _oracle_gate(ctx, sizes, order, spec, desc):
     iw = [qib.util.map_particle_to_wire(fields, qubit(F, p)) for p in prt]
     if iw != ws:
         ctx.fail("map_particle_to_wire:not-offset-of-earlier-fields-plus-index", desc, ws, iw)
+    tol = spec_tol(spec)
     gm = g.as_matrix()
-    gm_ref = ref_gate_matrix(spec, sizes)         # the same gate built from a plain C-ordered matrix
-    if gm_ref.shape != np.shape(gm) or not np.array_equal(np.asarray(gm, dtype=complex), np.asarray(gm_ref, dtype=complex)):
+    gm_ref = ref_gate_matrix(spec, sizes)         # the same gate built afresh (from a plain C-ordered matrix)
+    if not same(gm, gm_ref, tol):
         ctx.fail("as_matrix:depends-on-the-memory-layout-of-the-constructor-argument", desc, "the matrix handed over", "differs")
     D = dense(out) if nw <= DENSE_MAX else None
-    if not embeds_exactly(out, nw, ws, gm_ref):
+    if not embeds_exactly(out, nw, ws, gm_ref, tol):
         ctx.fail("as_circuit_matrix:not-gate-on-its-wires-times-identity", desc,
                  "as_matrix() on wires %s (x) 1" % ws, "differs")
     # permute_gate_wires is the matching conjugation: embed = permute(G (x) 1, invperm(ws ++ rest))
@@ -637,7 +754,7 @@ def _oracle_gate(ctx, sizes, order, spec, desc):
         orderw = ws + [w for w in range(nw) if w not in ws]
         inv = [orderw.index(s) for s in range(nw)]
         P = qib.util.permute_gate_wires(np.kron(gm, np.identity(2 ** (nw - len(ws)))), inv)
-        if not np.array_equal(np.asarray(P, dtype=complex), D):
+        if not same(P, D, tol):
             ctx.fail("as_circuit_matrix:not-permute_gate_wires-of-kron", desc, "permute(G (x) 1, %s)" % inv, "differs")
     return 2, raw, D
 
@@ -730,13 +847,14 @@ def _oracle_gate_history(ctx, sizes, spec, steps, desc, collect=None):
                     return False
                 R = ref_embed(nw, ws, ref_gate_matrix(cur, sizes))    # fresh object: no history; plain C-ordered matrices
                 D = dense(out)
-                if (D.shape != R.shape or not np.array_equal(D, R)) and \
+                tol = spec_tol(cur)
+                if not same(D, R, tol) and \
                         any(out is o or np.shares_memory(out.data, o.data) for o in scribbled):
                     ctx.fail("as_circuit_matrix:returns-storage-of-a-matrix-handed-out-before-and-overwritten-by-the-caller", desc,
                              "step %d: a matrix the caller owns (writing into it affects nothing)" % n,
                              "the next call returns the overwritten entries")
                     return False
-                if D.shape != R.shape or not np.array_equal(D, R):
+                if not same(D, R, tol):
                     ctx.fail("as_circuit_matrix:not-the-current-gate-on-its-current-wires", desc,
                              "step %d: as_matrix() of the gate as it is now on wires %s (x) 1" % (n, ws),
                              "differs (matches an earlier state)" if any(
@@ -838,6 +956,19 @@ def spec_mutations(rng, sub, allp, exact=False):
         q = p()[0]
         out.append(["tgate", rng.choice([["Y", q], ["S", q]] if exact else [["Y", q], ["H", q], ["Rz", th(), q]])])
         return out
+    if k == "TEvo":
+        hk = rng.choice([x for x in HKINDS if x != sub[1][0]])
+        out = [["t", th()], ["h", rand_hspec(rng, hk, sub[1][1], sub[1][2])]]
+        if sub[1][0] in ("IsingZZ", "IsingXX"):
+            out.append(["h_field_strength", rng.choice([-5, 5, 7]) / 64.0])
+        return out
+    if k == "BEnc":
+        hk = rng.choice([x for x in HKINDS if x != sub[1][0]])
+        out = [["set_aux", p()[0]], ["set_aux_args", p()[0]], ["aux_inplace", p()[0]],
+               ["method", rng.choice([x for x in BE_METHODS if x != sub[2]])], ["h", rand_hspec(rng, hk, sub[1][1], sub[1][2])]]
+        if sub[1][0] in ("IsingZZ", "IsingXX"):
+            out.append(["h_field_strength", rng.choice([-5, 5, 7]) / 64.0])
+        return out
     if k == "Mux":
         n = len(sub[1])
         out = [["control_qubits_inplace", rng.randrange(n), p()[0]]]
@@ -937,6 +1068,12 @@ def gate_histories(rng, thorough):
             ["C", [0], [D], ["iSwap", A, B]], ["C", [1], [C_], ["Rzz", 0.5, B, A]],
             ["Mux", [A], [["X", D], ["S", D]]], ["Mux", [D], [["C", [1], [B], ["X", A]], ["C", [0], [B], ["Z", A]]]],
             ["C", [1], [B], ["Mux", [A], [["Y", C_], ["Z", C_]]]],
+        ]
+        # gates acting on a WHOLE field (all sites of field 0), auxiliary qubit / controls in another field
+        h0, h0b = rand_hspec(rng, rng.choice(["IsingZZ", "IsingXX"]), 0, sizes[0]), rand_hspec(rng, rng.choice(["Heis", "PauliOp"]), 0, sizes[0])
+        bases += [
+            ["TEvo", h0, 0.375], ["BEnc", h0, rng.choice(BE_METHODS), D], ["C", [1], [D], ["TEvo", h0b, -0.25]],
+            ["Mux", [D], [["TEvo", h0, 0.5], ["TEvo", h0b, 0.25]]], ["C", [0], [C_], ["BEnc", h0b, rng.choice(BE_METHODS), D]],
         ]
         for base in bases:
             base = jcopy(base)
@@ -1060,6 +1197,15 @@ def run(ctx):
                      "(c) sizes: _distribute_to_wires and real gates on registers of 9..12 wires (entry lists compared with a numpy-only "
                      "sparse reference), permute_gate_wires up to 9 (thorough 10) wires. The reference for a gate is always built from "
                      "a plain C-ordered matrix, whatever layout the gate under test was given. "
+                     "(d) gates acting on WHOLE fields, built for real: TimeEvolutionGate and BlockEncodingGate (3 methods) of Ising ZZ / XX, "
+                     "Heisenberg and Pauli-operator Hamiltonians on fields of 1..3 sites (lattice flavours via fmode), alone and as targets "
+                     "of controlled / nested controlled / multiplexed gates; auxiliary qubit in a 1-site field of its own or at any site of "
+                     "a 2- / 3-site field or (refused) inside the system field; every order of every non-empty sub-list of the fields with "
+                     "0..2 idle fields (Hamiltonian's field first / middle / last / unlisted; idle wires before / between / after); "
+                     "PrepareGate on 1..3 qubits, also transposed; (e) the gate covers the ENTIRE register: every gate class x every "
+                     "composition of num_wires into field sizes x particles a random arrangement of all sites x every order of the field "
+                     "list. expm / sqrtm gates are compared up to 1e-12 (entrywise), everything else exactly; the reference is as_matrix() of "
+                     "a gate built afresh from the JSON value, embedded by numpy on the wires computed from the field list. "
                      "non-trivial = wires not an ascending adjacent block starting at 0, or >=2 fields listed, or a non-identity "
                      "permutation, or a wire list the code must reject (repeated / out of range); CSR-conversion cases never count")
     ctx.lib(["Embed/EmbedCheck", "Embed/WireProofs", "Embed/CsrProofs", "Embed/HeapObs", "Embed/IdentProofs"])
@@ -1192,13 +1338,34 @@ def run(ctx):
         total = sum(sizes)
         kinds = ["X", "Y", "Z", "S", "Gen1", "Gen2", "Gen3", "C1", "C2", "iSwap", "Mux", "CC", "I", "Sdg", "Gen4", "C3", "CGen2"]
         if not exact:
-            kinds += ["H", "T", "Rx", "Ry", "Rz", "Rxx", "Ryy", "Rzz", "Phase", "Sx", "CH", "Tdg", "Rot", "Prep2", "GenD2", "GenD3"]
+            kinds += ["H", "T", "Rx", "Ry", "Rz", "Rxx", "Ryy", "Rzz", "Phase", "Sx", "CH", "Tdg", "Rot", "Prep2", "GenD2", "GenD3",
+                      "Prep1", "Prep3", "Prep2T", "TEvo", "BEnc", "CTEvo", "MuxTEvo", "CBEnc"]
         if force is not None:
             kinds = [force]
         for _ in range(50):
             k = rng.choice(kinds)
+            if k in WHOLE_FIELD:
+                # gates on ALL sites of one field (+ auxiliary qubit / controls anywhere else)
+                cand = [fi for fi, n in enumerate(sizes) if n <= (4 if ctx.thorough else 3)]
+                nother = {"TEvo": 0, "BEnc": 1, "CTEvo": 1, "MuxTEvo": 1, "CBEnc": 2}[k]
+                cand = [fi for fi in cand if total - sizes[fi] >= nother]
+                if not cand:
+                    continue
+                fi = rng.choice(cand)
+                others = rng.sample([p_ for p_ in rand_particles(sizes, total) if p_[0] != fi], nother)
+                hs = lambda: rand_hspec(rng, rng.choice(HKINDS), fi, sizes[fi])
+                t_ = rng.choice([x for x in range(-16, 17) if x]) / 8.0
+                if k == "TEvo":
+                    return ["TEvo", hs(), t_]
+                if k == "BEnc":
+                    return ["BEnc", hs(), rng.choice(BE_METHODS), others[0]]
+                if k == "CTEvo":
+                    return ["C", [rng.randint(0, 1)], [others[0]], ["TEvo", hs(), t_]]
+                if k == "MuxTEvo":
+                    return ["Mux", [others[0]], [["TEvo", hs(), t_], ["TEvo", hs(), -t_ / 2]]]
+                return ["C", [rng.randint(0, 1)], [others[0]], ["BEnc", hs(), rng.choice(BE_METHODS), others[1]]]
             need = {"GenD2": 2, "GenD3": 3, "Gen2": 2, "Gen3": 3, "C1": 2, "C2": 3, "iSwap": 2, "Mux": 2, "CC": 3, "Rxx": 2, "Ryy": 2, "Rzz": 2,
-                    "Phase": 2, "CH": 2, "Gen4": 4, "C3": 4, "CGen2": 4, "Prep2": 2}.get(k, 1)
+                    "Phase": 2, "CH": 2, "Gen4": 4, "C3": 4, "CGen2": 4, "Prep2": 2, "Prep2T": 2, "Prep3": 3}.get(k, 1)
             if need > total:
                 continue
             ps = rand_particles(sizes, need)
@@ -1211,6 +1378,8 @@ def run(ctx):
                 return ["Rot", [rng.randint(-8, 8) / 8.0 for _ in range(3)], ps[0]]
             if k == "Prep2":
                 return ["Prep", [rng.randint(1, 8) / 8.0 * rng.choice([-1, 1]) for _ in range(4)], ps]
+            if k in ("Prep1", "Prep3", "Prep2T"):
+                return ["Prep", [rng.randint(1, 8) / 8.0 * rng.choice([-1, 1]) for _ in range(2 ** need)], ps] + (["T"] if k == "Prep2T" or rng.random() < 0.5 else [])
             if k in ("Rxx", "Ryy", "Rzz"):
                 return [k, th, ps[0], ps[1]]
             if k == "Phase":
@@ -1247,11 +1416,23 @@ def run(ctx):
             return [l for t in spec[2] for l in gen_layouts_in(t)]
         return []
 
-    def gate_case(sizes, order, spec, fmode=None):
+    def gate_case(sizes, order, spec, fmode=None, coq=True):
         with field_mode(fmode):
-            _gate_case(sizes, order, spec, fmode)
+            _gate_case(sizes, order, spec, fmode, coq)
 
-    def _gate_case(sizes, order, spec, fmode):
+    def whole_field_counts(spec, prefix):
+        if spec[0] in ("TEvo", "BEnc"):
+            ctx.count(prefix + "hamiltonian_" + spec[1][0])
+            ctx.count(prefix + "hamiltonian_sites=%d" % spec[1][2])
+            if spec[0] == "BEnc":
+                ctx.count(prefix + "block_encoding_method_" + spec[2])
+        elif spec[0] == "C":
+            whole_field_counts(spec[3], prefix + "controlled_")
+        elif spec[0] == "Mux":
+            for t_ in spec[2]:
+                whole_field_counts(t_, prefix + "multiplexed_")
+
+    def _gate_case(sizes, order, spec, fmode, coq=True):
         nf = len(sizes)
         desc = {"kind": "gate", "sizes": sizes, "order": order, "spec": spec}
         if fmode:
@@ -1265,7 +1446,13 @@ def run(ctx):
         ctx.count("gate_fields=%d_listed=%d" % (nf, len(order)))
         ctx.count("gate_" + spec[0])
         ctx.count("gate_wires=%d" % len(spec_particles(spec)))
+        whole_field_counts(spec, "gate_")
+        if len(set(order)) == len(order) and sum(sizes[i] for i in order) == len(spec_particles(spec)):
+            ctx.count("gate_register_has_exactly_num_wires_wires_listed_fields=%d" % len(order))
         kind, raw, D = oracle_gate(ctx, sizes, order, spec, desc)
+        if not coq:          # oracle only (the wire map / funnel model cases of the same shape are produced elsewhere)
+            ctx.nontriv({"kind": "gate-oracle-only", "sizes": sizes, "order": order, "spec": spec[0], "particles": spec_particles(spec)})
+            return
         prt = spec_particles(spec)
         # map_particle_to_wire cases (model: field ids = indices into sizes)
         F = mk_fields(sizes)
@@ -1303,14 +1490,14 @@ def run(ctx):
     # different sizes (so an edit confined to one class's as_circuit_matrix / particles() meets an input);
     # gates on four wires (dense 16x16, three controls, two controls on a dense two-wire target)
     every = ["I", "X", "Y", "Z", "H", "S", "Sdg", "T", "Tdg", "Sx", "Rx", "Ry", "Rz", "Rot", "Rxx", "Ryy", "Rzz", "iSwap",
-             "Phase", "Prep2", "Gen2", "Gen3", "C1", "C2", "CC", "Mux", "Gen4", "C3", "CGen2", "GenD2", "GenD3"]
+             "Phase", "Prep2", "Gen2", "Gen3", "C1", "C2", "CC", "Mux", "Gen4", "C3", "CGen2", "GenD2", "GenD3",
+             "Prep1", "Prep3", "Prep2T", "TEvo", "BEnc", "CTEvo", "MuxTEvo", "CBEnc"]
     for kname in every:
         for sizes in ([2, 3], [2, 1, 3]) + (([1, 4], [3, 2, 2]) if ctx.thorough else ()):
             sizes = list(sizes)
             nf = len(sizes)
             spec = rand_spec(sizes, False, force=kname)
-            if spec[0] != {"Prep2": "Prep", "Gen2": "Gen", "Gen3": "Gen", "Gen4": "Gen", "GenD2": "Gen", "GenD3": "Gen", "C1": "C", "C2": "C", "CC": "C",
-                           "C3": "C", "CGen2": "C"}.get(kname, kname):
+            if spec[0] != KIND_HEAD.get(kname, kname):
                 continue
             orders = [list(p) for p in itertools.permutations(range(nf))]
             if not ctx.thorough and len(orders) > 2:
@@ -1364,16 +1551,114 @@ def run(ctx):
             spec[1] = float(rng.choice([-2, -1, 1, 2, 3]))
         gate_case(sizes, rng.choice([[0, 1], [1, 0]]), spec, fm)
     # registers of 9..12 wires (sparse entry-list comparison with the numpy-only reference)
-    for sizes in ([5, 6], [12], [4, 4, 4], [3, 7, 1], [9], [2, 8]) + (([6, 6], [1, 10, 1], [11]) if ctx.thorough else ()):
+    for sizes in ([5, 6], [12], [4, 4, 4], [3, 7, 1], [9], [2, 8], [3, 6, 2]) + (([6, 6], [1, 10, 1], [11], [8, 1, 3]) if ctx.thorough else ()):
         sizes = list(sizes)
         nf = len(sizes)
-        for kname in ("Y", "C1", "Gen2", "C2", "Gen3", "iSwap", "Mux", "GenD3") + (("C3", "CGen2", "Rzz", "Phase", "GenD2") if ctx.thorough else ()):
+        for kname in ("Y", "C1", "Gen2", "C2", "Gen3", "iSwap", "Mux", "GenD3", "TEvo", "BEnc") + \
+                (("C3", "CGen2", "Rzz", "Phase", "GenD2", "CTEvo", "CBEnc", "Prep3") if ctx.thorough else ()):
             spec = rand_spec(sizes, kname in ("Y", "C1", "Gen2", "C2", "Gen3", "iSwap", "Mux", "C3", "CGen2"), force=kname)
+            if spec[0] != KIND_HEAD.get(kname, kname):
+                continue            # no field of this register is small enough for a whole-field gate
             order = list(range(nf))
             rng.shuffle(order)
             fm = rand_fmode(rng, sizes, nums=None) if rng.random() < 0.5 else None
             ctx.count("gate_large_register_nw=%d" % sum(sizes))
             gate_case(sizes, order, spec, fm)
+    # ---- (B3) gates that act on WHOLE fields, built for real: TimeEvolutionGate (every site of the Hamiltonian's field),
+    # BlockEncodingGate (auxiliary qubit, then every site of the Hamiltonian's field), alone and as targets of controlled /
+    # multiplexed gates.  Every order of every non-empty sub-list of the fields: the Hamiltonian's field first / in the
+    # middle / last / unlisted, idle fields before / between / after, registers with EXACTLY num_wires wires and larger.
+    def sub_orders(nf):
+        return [list(o) for k in range(1, nf + 1) for o in itertools.permutations(range(nf), k)]
+
+    def sweep_fmode(sizes):
+        r = rng.random()
+        if r < 0.65:
+            return None
+        return rand_fmode(rng, sizes, nums=("np64", "int"))
+
+    n_wf = 0
+    hk_cycle = itertools.cycle(HKINDS)
+    me_cycle = itertools.cycle(BE_METHODS + ("R", "Wx"))       # period 5: runs against the period-4 cycle of Hamiltonian kinds
+    # block encoding: auxiliary qubit in a 1-site field of its own or at ANY site of a 2- / 3-site field (field 0);
+    # system field (field 1) of 1..3 sites; none / one / two further idle fields
+    for a, ai in [(a, ai) for a in (1, 2, 3) for ai in range(a)]:
+        for s_ in (1, 2, 3):
+            for extras in ([], [1], [2]) + (([1, 2], [3]) if ctx.thorough else ()):
+                sizes = [a, s_] + list(extras)
+                combos = [(m_, k_) for m_ in BE_METHODS for k_ in HKINDS] if ctx.thorough and len(sizes) <= 3 \
+                    else [(next(me_cycle), next(hk_cycle))]
+                for m_, k_ in combos:
+                    spec = ["BEnc", rand_hspec(rng, k_, 1, s_), m_, [0, ai]]
+                    fm = sweep_fmode(sizes)
+                    for order in sub_orders(len(sizes)):
+                        n_wf += 1
+                        gate_case(sizes, order, spec, fm, coq=(n_wf % 6 == 0))
+    # auxiliary qubit INSIDE the system field (a wire used twice: must be refused when the field is listed)
+    for s_ in (1, 2, 3):
+        for ai in range(s_):
+            sizes = [s_, 1]
+            spec = ["BEnc", rand_hspec(rng, next(hk_cycle), 0, s_), next(me_cycle), [0, ai]]
+            for order in sub_orders(2):
+                gate_case(sizes, order, spec, None, coq=False)
+    # time evolution: the Hamiltonian's field alone, first or last of two, in the middle / anywhere among three (four)
+    for s_ in (1, 2, 3) + ((4,) if ctx.thorough else ()):
+        for sizes, hf in (([s_], 0), ([s_, 2], 0), ([1, s_, 2], 1)) + ((([2, 1, s_], 2), ([1, s_, 1, 2], 1)) if ctx.thorough else ()):
+            for k_ in (HKINDS if ctx.thorough else (next(hk_cycle), next(hk_cycle))):
+                spec = ["TEvo", rand_hspec(rng, k_, hf, s_), rng.choice([x for x in range(-16, 17) if x]) / 8.0]
+                fm = sweep_fmode(sizes)
+                for order in sub_orders(len(sizes)):
+                    n_wf += 1
+                    gate_case(list(sizes), order, spec, fm, coq=(n_wf % 6 == 0))
+    # composites with whole-field targets: controls / auxiliary qubit in other fields (or, refused, in the same one)
+    for sizes in ([2, 2, 1], [1, 1, 2], [2, 3, 1]) + (([1, 3, 2], [2, 1, 1, 1]) if ctx.thorough else ()):
+        sizes = list(sizes)
+        s_ = sizes[1]
+        hs = lambda: rand_hspec(rng, next(hk_cycle), 1, s_)
+        A0, A1, E0 = [0, 0], [0, sizes[0] - 1], [2, 0]
+        comps = [
+            ["C", [1], [A1], ["TEvo", hs(), 0.375]],
+            ["C", [0], [E0], ["TEvo", hs(), -1.25]],
+            ["C", [1], [[1, s_ - 1]], ["TEvo", hs(), 0.5]],                  # control inside the target's field: refused
+            ["Mux", [E0], [["TEvo", hs(), 0.25], ["TEvo", hs(), -0.75]]],
+            ["C", [1], [A0], ["BEnc", hs(), next(me_cycle), E0]],
+            ["C", [0], [E0], ["BEnc", hs(), next(me_cycle), A1]],
+            ["Mux", [A0], [["BEnc", hs(), "Wx", E0], ["BEnc", hs(), "R", E0]]],
+        ]
+        if sizes[0] >= 2:
+            comps += [["C", [0, 1], [E0, A0], ["TEvo", hs(), 0.625]],
+                      ["C", [1], [A0], ["C", [0], [A1], ["TEvo", hs(), -0.5]]],
+                      ["Mux", [A1, E0], [["TEvo", hs(), t_ / 8.0] for t_ in (1, -2, 3, 5)]]]
+        for spec in comps:
+            fm = sweep_fmode(sizes)
+            for order in sub_orders(len(sizes)):
+                n_wf += 1
+                gate_case(sizes, order, spec, fm, coq=(n_wf % 6 == 0))
+    # ---- (B4) the gate covers the ENTIRE register (the register has exactly num_wires wires): every gate class, its
+    # particles a random arrangement of ALL sites of fields whose sizes run over every composition of num_wires, every
+    # order of the field list (plain embedding = as_matrix() only if the particles happen to be wires 0, 1, 2, ...)
+    def compositions(m):
+        return [[m]] + [[h_] + c for h_ in range(1, m) for c in compositions(m - h_)]
+
+    for kname in every:
+        if kname in WHOLE_FIELD:
+            m_list = (2, 3) if kname in ("TEvo", "BEnc") else (3, 4)
+        else:
+            m_list = ({"GenD2": 2, "GenD3": 3, "Gen2": 2, "Gen3": 3, "C1": 2, "C2": 3, "iSwap": 2, "Mux": 2, "CC": 3, "Rxx": 2, "Ryy": 2,
+                       "Rzz": 2, "Phase": 2, "Gen4": 4, "C3": 4, "CGen2": 4, "Prep2": 2, "Prep2T": 2, "Prep3": 3}.get(kname, 1),)
+        for m in m_list:
+            for sizes in compositions(m):
+                nf = len(sizes)
+                if nf == 1 and kname in WHOLE_FIELD and kname != "TEvo":
+                    continue
+                if nf == 4 and not ctx.thorough and rng.random() < 0.5:
+                    continue
+                spec = rand_spec(sizes, False, force=kname)
+                if spec[0] != KIND_HEAD.get(kname, kname) or len(spec_particles(spec)) != m:
+                    continue
+                fm = sweep_fmode(sizes)
+                for order in itertools.permutations(range(nf)):
+                    gate_case(sizes, list(order), spec, fm, coq=(m <= 3 or ctx.thorough))
     # extra map_particle_to_wire sweep: all particles x all orders x listed subsets x lattice sharing
     for sizes, fm in (([2, 3], None), ([3, 1, 2], None), ([1, 2, 3], None), ([2, 2, 1], None), ([2, 2, 1], {"lat": [0, 0, 1]}),
                       ([2, 2, 2], {"lat": [0, 0, 0]}), ([3, 3], {"lat": [0, 0], "intern": True}), ([2, 1, 2], {"lat": [0, 1, 0]})):
